@@ -57,9 +57,14 @@ def role_xml(role, r):
             s += '<md:%s Binding="%s" Location="%s"%s/>' % (SERVICE_TAG[svc], b, loc, idx)
     if role == 'spsso' and r.get('requested'):
         ra = ''.join('<md:RequestedAttribute Name="%s" NameFormat="urn:oasis:names:tc:SAML:2.0:attrname-format:uri" FriendlyName="%s"%s/>'
-                     % (OID[n], n, ' isRequired="true"' if req else '') for n, req in r['requested'])
+                     % (OID[n], n, (' isRequired="%s"' % ('true' if req is True else req)) if req else '') for n, req in r['requested'])
         s += '<md:AttributeConsumingService index="0"><md:ServiceName xml:lang="en">x</md:ServiceName>%s</md:AttributeConsumingService>' % ra
     return '<md:%s protocolSupportEnumeration="%s">%s%s</md:%s>' % (ROLE_TAG[role], proto, kd, s, ROLE_TAG[role])
+
+
+def is_req(r):
+    # xs:boolean: 'true' and '1' are true
+    return r is True or r in ('true', '1')
 
 
 def entity_xml(e, standalone=True):
@@ -75,6 +80,9 @@ def entity_xml(e, standalone=True):
     v = vu(e.get('valid_until'))
     order = ['idpsso', 'spsso', 'authn_authority', 'attribute_authority', 'pdp']
     roles = ''.join(role_xml(r, e['roles'][r]) for r in order if r in e['roles'])
+    if e.get('extra_descriptor'):
+        pos, xml = e['extra_descriptor']
+        roles = xml + roles if pos == 'before' else roles + xml
     return '<md:EntityDescriptor%s entityID="%s"%s>%s%s</md:EntityDescriptor>' % (
         ' xmlns:md="%s"' % MDNS if standalone else '', e['id'], ' validUntil="%s"' % v if v else '', ext, roles)
 
@@ -96,8 +104,13 @@ def _doc_xml(d):
     if d['kind'] == 'single':
         return entity_xml(d['entities'][0])
     v = vu(d.get('valid_until'))
+    ents = [entity_xml(e, False) for e in d['entities']]
+    if d.get('nested'):
+        k = d['nested']
+        nv = vu(d.get('nested_valid_until'))
+        ents = ['<md:EntitiesDescriptor Name="urn:vp:group"%s>%s</md:EntitiesDescriptor>' % (' validUntil="%s"' % nv if nv else '', ''.join(ents[:k]))] + ents[k:]
     return '<md:EntitiesDescriptor xmlns:md="%s"%s>%s</md:EntitiesDescriptor>' % (
-        MDNS, ' validUntil="%s"' % v if v else '', ''.join(entity_xml(e, False) for e in d['entities']))
+        MDNS, ' validUntil="%s"' % v if v else '', ''.join(ents))
 
 
 # ------------------------------------------------------------- entity alphabet
@@ -114,6 +127,23 @@ def E(name, variant=0):
         d = E('spX')
         d['categories'] = [RS, COCO]
         d['category_elements'] = [[RS], [COCO]]
+        return d
+    if name == 'spX-req1':
+        # isRequired written with the other literals of xs:boolean
+        d = E('spX')
+        d['roles']['spsso']['requested'] = [('givenName', '1'), ('title', '0'), ('mail', 'true')]
+        return d
+    if name in ('idpA+saml1-before', 'idpA+saml1-after'):
+        # a second descriptor of the same role that only speaks SAML 1.1: nothing of it belongs to a SAML 2 lookup
+        d = E('idpA')
+        d['extra_descriptor'] = (name.rsplit('-', 1)[1], '<md:IDPSSODescriptor protocolSupportEnumeration="%s">%s'
+                                 '<md:SingleSignOnService Binding="%s" Location="https://idpa.example/saml1/sso"/>'
+                                 '<md:SingleSignOnService Binding="%s" Location="https://idpa.example/saml1/post"/></md:IDPSSODescriptor>'
+                                 % (PROTO1, world.key_descriptor('idpB', 'signing'), REDIR, POST))
+        return d
+    if name == 'idpA-chain':
+        d = E('idpA')
+        d['roles']['idpsso']['keys'] = [('idpA|idpB', 'signing'), ('idpAenc', 'encryption')]
         return d
     if name == 'spX':
         return {'id': 'urn:vp:spX', 'categories': [RS], 'roles': {'spsso': {'keys': [('spX', 'signing'), ('spXenc1', 'encryption')],
@@ -166,6 +196,12 @@ def federations(thorough):
         for v in ('past' + sp_, 'future' + sp_):
             F.append(('wrapped:idpA+spX:%s' % v, [{'kind': 'multi', 'valid_until': v, 'entities': [E('idpA'), E('spX')]}]))
     F.append(('single:spX2', [{'kind': 'single', 'entities': [E('spX2')]}]))
+    for nm in ('spX-req1', 'idpA+saml1-before', 'idpA+saml1-after', 'idpA-chain'):
+        F.append(('single:' + nm, [{'kind': 'single', 'entities': [E(nm)]}]))
+        F.append(('multi:%s+aa' % nm, [{'kind': 'multi', 'entities': [E(nm), E('aa')]}]))
+    # entities inside a nested group of an aggregate
+    for v in (None, 'past', 'future'):
+        F.append(('nested:idpA+spX|aa:%s' % v, [{'kind': 'multi', 'entities': [E('idpA'), E('spX'), E('aa')], 'nested': 2, 'nested_valid_until': v}]))
     F.append(('multi:spX2+idpA', [{'kind': 'multi', 'entities': [E('spX2'), E('idpA')]}]))
     # pairs and triples in one document
     for k in (2, 3):
@@ -217,9 +253,11 @@ def served_candidates(docs, eid):
         if d['kind'] == 'multi' and is_past(d.get('valid_until')):
             continue
         seen_in_doc = False
-        for e in d['entities']:
+        for pos, e in enumerate(d['entities']):
             if e['id'] != eid or is_past(e.get('valid_until')):
                 continue
+            if d.get('nested') and pos < d['nested'] and is_past(d.get('nested_valid_until')):
+                continue            # inside a nested group whose own validUntil has passed
             roles = {r: s for r, s in e['roles'].items() if s.get('proto', 'saml2') in ('saml2', 'both')}
             if not roles:
                 continue
@@ -390,9 +428,10 @@ def _evaluate(fed):
                     for r in roles:
                         for kn, ku in c['roles'][r].get('keys', ()):
                             if ku == use or ku is None:
-                                cb = world.cert_b64(kn)
-                                if cb not in want:
-                                    want.append(cb)
+                                for k1 in kn.split('|'):
+                                    cb = world.cert_b64(k1)
+                                    if cb not in want:
+                                        want.append(cb)
                     okset.append(sorted(want))
                 norm = sorted(''.join(x.split()) for x in got)
                 if norm not in okset:
@@ -419,7 +458,7 @@ def _evaluate(fed):
             want = []
             for c in cands:
                 rq = c['roles'].get('spsso', {}).get('requested', [])
-                want.append((sorted(x for x, r in rq if r), sorted(x for x, r in rq if not r)))
+                want.append((sorted(x for x, r in rq if is_req(r)), sorted(x for x, r in rq if not is_req(r))))
             if (got[0] or got[1]) and got not in want:
                 bad.append(('attribute-requirement-differs', [eid], got))
     for (pas, eid), ok in compat.items():
